@@ -1045,6 +1045,54 @@ def raw_arguments(repo):
 
 
 
+def generators(repo):
+    """Every generator function of the package: no `yield` lexically inside a `with` block.  A context manager held open across a
+    yield (a units or basis context above all) stays entered while the CALLER's loop body runs and until the generator is exhausted
+    or collected: the caller's active units would be the generator's.  Fail-closed: any `with` around a `yield` is refused."""
+    import os
+    import warnings
+    found, held = [], []
+    for root, _dirs, files in os.walk(repo + "/quantarhei"):
+        for fn in sorted(files):
+            if not fn.endswith(".py"):
+                continue
+            path = os.path.join(root, fn)
+            try:
+                with warnings.catch_warnings():
+                    warnings.simplefilter("ignore")          # docstrings with backslashes
+                    tree = ast.parse(open(path).read())
+            except SyntaxError as e:
+                raise Untranslatable("%s does not parse: %s" % (path, e))
+            for f in ast.walk(tree):
+                if not isinstance(f, (ast.FunctionDef, ast.AsyncFunctionDef)):
+                    continue
+
+                def visit(node, withs):
+                    for ch in ast.iter_child_nodes(node):
+                        if isinstance(ch, (ast.FunctionDef, ast.AsyncFunctionDef, ast.Lambda, ast.ClassDef)):
+                            continue
+                        if isinstance(ch, (ast.Yield, ast.YieldFrom)):
+                            yields.append(list(withs))
+                        visit(ch, withs + [ch] if isinstance(ch, (ast.With, ast.AsyncWith)) else withs)
+                yields = []
+                visit(f, [])
+                if yields:
+                    name = "%s:%s" % (os.path.relpath(path, repo + "/quantarhei"), f.name)
+                    found.append(name)
+                    for ws in yields:
+                        if ws:
+                            held.append("%s (with %s)" % (name, "; ".join(ast.unparse(i.context_expr)[:40] for w in ws for i in w.items)))
+    if held:
+        raise Untranslatable("a generator yields inside a `with` block, so the context stays entered in the caller's loop body: %s" % "; ".join(held))
+    if not found:
+        raise Untranslatable("no generator function found in the package (the scan is broken)")
+    return ("(* generator functions of the package (%d): none yields inside a `with` block, so no units or basis context is held open\n"
+            "   while the caller's loop body runs: %s *)\n"
+            "Definition gen_generators_holding_a_context : list nat := [].\n"
+            "Lemma gen_no_generator_holds_a_context : gen_generators_holding_a_context = [].\nProof. reflexivity. Qed.\n"
+            % (len(found), ", ".join(found)))
+
+
 HEAD = """(* GENERATED on every run by harness/translate_c05.py from quantarhei/core/units.py, core/managers.py, utils/types.py and
    builders/aggregate_base.py (see the module's docstring for the list).  let = assignment, if = if with the rest of the method in both
    branches, None = raise, match on an option = reading an attribute / dictionary entry that may be missing. *)
@@ -1057,7 +1105,7 @@ Import ListNotations.
 def static(repo):
     lists, allowed = unit_lists(repo)
     parts = [HEAD, lists, tables(repo), converters(repo), manager_state(repo, allowed), contexts(repo, allowed), delegations(repo),
-             properties(repo), convert_functions(repo), build_switch(repo), managed_accesses(repo), raw_arguments(repo)]
+             properties(repo), convert_functions(repo), build_switch(repo), managed_accesses(repo), raw_arguments(repo), generators(repo)]
     what = ["units.py:conversion_facs_energy", "units.py:conversion_facs_length", "managers.py:Manager.units / allowed_utypes",
             "managers.py:Manager.convert_energy_2_internal_u (scalar and array path)", "managers.py:Manager.convert_energy_2_current_u (scalar and array path)",
             "managers.py:Manager.convert_length_2_internal_u", "managers.py:Manager.convert_length_2_current_u",
@@ -1070,5 +1118,6 @@ def static(repo):
             "frequency.py:FrequencyAxis.get_TimeAxis (units current at every managed read)", "frequency.py:FrequencyAxis.copy (the same)", "time.py:TimeAxis.get_FrequencyAxis (units current at the construction)",
             "dfunction.py:DFunction.get_Fourier_transform / get_inverse_Fourier_transform (units current at the read of the frequency step)",
             "hamiltonian.py:Hamiltonian.subtract_cutoff_coupling, aggregate_base.py:AggregateBase.set_resonance_coupling, molecules.py:Molecule.set_energy, "
-            "submodes.py:SubMode.__init__, modes.py:Mode.__init__ (every use of the energy argument is behind the conversion to internal units)"]
+            "submodes.py:SubMode.__init__, modes.py:Mode.__init__ (every use of the energy argument is behind the conversion to internal units)",
+            "every generator function of the package: no yield inside a with block (no context held open across the caller's loop body)"]
     return "\n".join(parts), what
